@@ -143,6 +143,18 @@ func genPart(c *ctx, stream string, nFlows, nPars int, o prog.GenOpts, orders in
 				Witness: map[string]interface{}{"engine": "G", "source": readProgSource(co, p.Name), "generated": readProgGen(co, p.Name)}})
 		}
 	}
+	if n := len(co.Dropped); n > 0 && c.Prop != "C15" {
+		// Well-formed programs that cff refuses, or whose output does not
+		// compile, refute C14 / C13, not this property - but this check then ran
+		// on less than its corpus and must say so.
+		first := ""
+		for name, why := range co.Dropped {
+			if first == "" || name < first[:len(name)] {
+				first = name + ": " + why
+			}
+		}
+		c.R.Inconclusive(fmt.Sprintf("%d of %d generated programs could not be executed (see C13/C14), e.g. %s", n, len(progs), firstLines(first, 3)))
+	}
 	a := runGen(c, co, tags, per, race)
 	cov := a.coverage(ruleG + nontrivial)
 	if race {
